@@ -472,6 +472,7 @@ Section Doc.
     fold (pint_group_ok dur_ok expr_ok tmpl_pint) in Hgs.
     unfold parse_strict in *. cbn [parse_strict_loop] in *.
     set (L := firstn nl lines) in *.
+    destruct (too_big d) eqn:TB; [discriminate Hfe|].
     destruct (strict_prepass null_ok d) as [e0|] eqn:PP; [discriminate Hfe|].
     destruct (parse_groups plines metric_ok lname_ok lvalue_ok dur_ok int_ok false L d) as [e|gs] eqn:PGs; [discriminate Hfe|].
     cbn [app f_groups] in Hgs. clear Hfe.
@@ -542,12 +543,15 @@ Section Doc.
     - reflexivity.
     - destruct yerr as [e|].
       + exfalso. destruct (blocks_false_inv _ Hb) as [Hfe _]. unfold parse_strict in Hfe. cbn [parse_strict_loop] in Hfe.
+        destruct (too_big d); [discriminate Hfe|].
         destruct (strict_prepass null_ok d); [discriminate Hfe|].
         destruct (parse_groups _ _ _ _ _ _ _ _ d); cbn in Hfe; discriminate.
       + exact (doc_sound d nl (Hg d nl eq_refl) Hb).
     - exfalso. destruct (blocks_false_inv _ Hb) as [Hfe _]. unfold parse_strict in Hfe. cbn [parse_strict_loop] in Hfe.
+      destruct (too_big d); [discriminate Hfe|].
       destruct (strict_prepass null_ok d); [discriminate Hfe|].
       destruct (parse_groups _ _ _ _ _ _ _ _ d); [discriminate Hfe|].
+      destruct (too_big d2); [discriminate Hfe|].
       destruct (strict_prepass null_ok d2); [discriminate Hfe|].
       destruct (parse_groups _ _ _ _ _ _ _ _ d2); [discriminate Hfe|].
       revert Hfe. apply strict_loop_multi; [lia|]. cbn. discriminate.
